@@ -24,6 +24,7 @@ import (
 	"strings"
 
 	"github.com/bytedance/sonic"
+	"github.com/bytedance/sonic/ast"
 	"github.com/cloudwego/hertz/internal/bytesconv"
 	"github.com/cloudwego/hertz/pkg/common/utils"
 	"github.com/cloudwego/hertz/pkg/protocol"
@@ -38,19 +39,48 @@ func checkRequireJSON(req *protocol.Request, tagInfo TagInfo) bool {
 	if !strings.EqualFold(utils.FilterContentType(ct), consts.MIMEApplicationJSON) {
 		return false
 	}
-	node, _ := sonic.Get(req.Body(), stringSliceForInterface(tagInfo.JSONName)...)
-	if !node.Exists() {
+	if !jsonKeyExists(req.Body(), tagInfo.JSONName) {
 		idx := strings.LastIndex(tagInfo.JSONName, ".")
 		if idx > 0 {
 			// There should be a superior if it is empty, it will report 'true' for required
-			node, _ := sonic.Get(req.Body(), stringSliceForInterface(tagInfo.JSONName[:idx])...)
-			if !node.Exists() {
+			if !jsonKeyExists(req.Body(), tagInfo.JSONName[:idx]) {
 				return true
 			}
 		}
 		return false
 	}
 	return true
+}
+
+// jsonKeyExists reports whether body carries the member named by the dotted path name.
+// Member names are matched the way the JSON decoder matches them to struct fields:
+// exactly, or else ignoring case.
+func jsonKeyExists(body []byte, name string) bool {
+	node, _ := sonic.Get(body, stringSliceForInterface(name)...)
+	if node.Exists() {
+		return true
+	}
+	node, _ = sonic.Get(body)
+	for _, seg := range strings.Split(name, ".") {
+		next := node.Get(seg)
+		if !next.Exists() {
+			next = nil
+			if node.TypeSafe() == ast.V_OBJECT {
+				_ = node.ForEach(func(path ast.Sequence, n *ast.Node) bool {
+					if path.Key != nil && strings.EqualFold(*path.Key, seg) {
+						next = n
+						return false
+					}
+					return true
+				})
+			}
+			if next == nil {
+				return false
+			}
+		}
+		node = *next
+	}
+	return node.Exists()
 }
 
 func stringSliceForInterface(s string) (ret []interface{}) {
@@ -66,6 +96,5 @@ func keyExist(req *protocol.Request, tagInfo TagInfo) bool {
 	if !strings.EqualFold(utils.FilterContentType(ct), consts.MIMEApplicationJSON) {
 		return false
 	}
-	node, _ := sonic.Get(req.Body(), stringSliceForInterface(tagInfo.JSONName)...)
-	return node.Exists()
+	return jsonKeyExists(req.Body(), tagInfo.JSONName)
 }
